@@ -564,7 +564,7 @@ func checkDepositCache(p *an.Prog, r *an.Run) {
 	var bad []string
 	var upd *ssa.MapUpdate
 	an.AllInstrs(set, func(in ssa.Instruction) {
-		if mu, ok := in.(*ssa.MapUpdate); ok && an.FieldOf(stripLoad(mu.Map)) != nil && an.FieldOf(stripLoad(mu.Map)).Name() == "cache" {
+		if mu, ok := in.(*ssa.MapUpdate); ok && an.FieldOf(stripLoad(mu.Map)) != nil && an.Ident(an.FieldOf(stripLoad(mu.Map)).Name()) == "cache" {
 			upd = mu
 		}
 	})
